@@ -9,7 +9,8 @@
     operation, whenever the coordinator is drained, and at quiescence.
 
 (b) real twisted.python.threadpool.ThreadPool under OS scheduling: generated
-    mixes of callInThread / callInThreadWithCallback / adjustPoolsize / start,
+    mixes of callInThread / callInThreadWithCallback / adjustPoolsize /
+    startAWorker / stopAWorker / start,
     then stop().  Order-insensitive oracle only.
 """
 import itertools
@@ -27,7 +28,7 @@ META = dict(
     level="exploration",
     technique="(a) complete enumeration of small schedules + Hypothesis histories over the real Team with harness-stepped memory workers, invariant oracle on harness-observed events; (b) randomized histories on the real ThreadPool with real threads, order-insensitive exactly-once/onResult/stop-joins oracle",
     level_text="(a) every history up to depth 5 (quick; 6 thorough) over an 11-letter alphabet for initial limits 1 and 2, one less for unlimited (histories whose step operations have nothing to step are pruned as equivalent to shorter ones), plus random histories of up to 60 operations with up to 6 workers; (b) a few hundred (thorough: thousands) generated ThreadPool histories with real threads; the OS schedules these, so (b) is exploration under scheduling noise. No TLA+ model: the quantifier's model checking is replaced by schedule enumeration on the real objects.",
-    level_note="(a) trusts createMemoryWorker/MemoryWorker as the stepping device and the harness's own event log; the worker limiter is the formula of _pool.pool (statistics-based), and the harness independently counts live workers. (b) cannot choose the interleaving; a watchdog turns a hang into exit 2.",
+    level_note="(a) trusts createMemoryWorker/MemoryWorker as the stepping device and the harness's own event log; the team is built by the real _pool.pool() so its limitedWorkerCreator is the limiter under test (only the module-level names LockWorker/ThreadWorker/err of _pool are replaced by harness-stepped doubles for the duration of a case), and the harness independently counts live workers at every creation. (b) the creation-time check reads ThreadPool.workers/max from inside the thread factory (coordinator context on the submitting thread), i.e. it trusts the team's statistics that layer (a) cross-checks. (b) cannot choose the interleaving; a watchdog turns a hang into exit 2.",
     design_ref="§5 C49",
     rule="(a) case = (initial limit, op list); non-trivial = a task waited in the backlog because the limiter refused a worker and later ran, or quit/shrink was coordinated while a worker was busy; (b) case = op list for the real pool; non-trivial = >=2 pool threads ran tasks and >=1 task raised and >=1 onResult was requested. Distinct by canonical JSON.",
 )
@@ -86,12 +87,11 @@ class _W:
 
 class _TeamH:
     def __init__(self, ctx, case):
-        from twisted._threads import Team, createMemoryWorker, AlreadyQuit
+        from twisted._threads import createMemoryWorker, AlreadyQuit
         self.ctx, self.case = ctx, case
         self.AlreadyQuit = AlreadyQuit
         self.limit = case["limit"]
         self.workers = []
-        self.refusals = 0
         self.assigned = 0
         self.accepted = []          # task ids accepted by do()
         self.runs = {}
@@ -108,8 +108,28 @@ class _TeamH:
             self.coord_quits += 1
             orig_quit()
         self.coord.quit = cq
-        self.team = Team(self.coord, self.create, self.log)
+        # The team is built by the real twisted._threads._pool.pool(): its
+        # limitedWorkerCreator is the limiter under test.  Only the module-level
+        # worker classes are replaced (for the duration of the case, see
+        # run_team) so that coordinator and workers are harness-stepped.
+        self.attempts = 0
+        from twisted._threads import _pool
+        self.team = _pool.pool(self.current_limit, threadFactory=self.no_thread)
         self.cls = set()
+
+    @property
+    def refusals(self):
+        return self.attempts - len(self.workers)
+
+    def current_limit(self):
+        self.attempts += 1
+        if self.limit is not None and self.live() >= self.limit and any(
+                not w.quits and not w.out for w in self.workers):
+            self.cls.add("worker requested at the limit while idle workers exist (grow)")
+        return self.limit if self.limit is not None else 10 ** 9
+
+    def no_thread(self, **kw):
+        raise HarnessError("memory workers start no threads")
 
     def viol(self, sig, detail):
         self.ctx.violation(sig, self.case, detail)
@@ -120,16 +140,15 @@ class _TeamH:
     def log(self):
         self.logged += 1
 
-    def create(self):
-        s = self.team.statistics()
+    def new_worker(self, startThread=None, queue=None):
+        """Stands in for ThreadWorker(startThread, queue): called by the real
+        limitedWorkerCreator when it decides to create a worker."""
         lim = self.limit
-        if lim is not None and s.busyWorkerCount + s.idleWorkerCount >= lim:
-            self.refusals += 1
-            return None
         if lim is not None and self.live() >= lim:
+            s = self.team.statistics()
             self.viol("worker-created-at-limit",
-                      f"limit {lim}, {self.live()} live workers, statistics say "
-                      f"idle={s.idleWorkerCount} busy={s.busyWorkerCount}")
+                      f"limit {lim}, {self.live()} live workers already exist (statistics: "
+                      f"idle={s.idleWorkerCount} busy={s.busyWorkerCount})")
         w = _W(self, len(self.workers))
         self.workers.append(w)
         return w
@@ -273,7 +292,21 @@ class _TeamH:
 
 
 def run_team(ctx, case):
-    h = _TeamH(ctx, case)
+    from twisted._threads import _pool
+    saved = (_pool.LockWorker, _pool.ThreadWorker, _pool.err)
+    box = {}
+    _pool.LockWorker = lambda lock, local: box["h"].coord
+    _pool.ThreadWorker = lambda startThread, queue: box["h"].new_worker(startThread, queue)
+    _pool.err = lambda *a, **kw: box["h"].log()
+    try:
+        box["h"] = _TeamH.__new__(_TeamH)
+        box["h"].__init__(ctx, case)
+        return _run_team(ctx, case, box["h"])
+    finally:
+        _pool.LockWorker, _pool.ThreadWorker, _pool.err = saved
+
+
+def _run_team(ctx, case, h):
     for o in case["ops"]:
         if not h.op(o) and case.get("prune"):
             # complete enumeration only: equivalent to the history without this op
@@ -355,7 +388,7 @@ WATCHDOG = 600.0
 
 def run_pool(ctx, case):
     """case = {"layer": "pool", "min": a, "max": b, "ops": [...]}
-    ops: ["start"] | ["cit", raises, dur] | ["cb", raises, dur] | ["adjust", min, max] | ["stop"]
+    ops: ["start"] | ["cit", raises, dur] | ["cb", raises, dur] | ["adjust", min, max] | ["startw"] | ["stopw"] | ["stop"]
     (a final stop is always performed)."""
     from twisted.python.threadpool import ThreadPool
     from twisted.python.failure import Failure
@@ -366,9 +399,20 @@ def run_pool(ctx, case):
     results = {}     # k -> [(ok, result)]
     spec = {}        # k -> (raises, wants_cb, submitted_before_stop)
     pool = ThreadPool(case["min"], case["max"], name=name)
+    over = []        # worker threads created although the limit was reached
+
+    def recording_factory(*a, **kw):
+        # Runs inside the team's coordinator on the thread that asked for the
+        # worker (always this thread here), so the counts are consistent.
+        have, lim = pool.workers, pool.max
+        if have >= lim:
+            over.append((have, lim))
+        return threading.Thread(*a, **kw)
+    pool.threadFactory = recording_factory
     started = stopped = False
     max_ever = case["max"]
     ever_started = False
+    nstartw = [0]
 
     def mk(k, raises, dur):
         def task():
@@ -419,6 +463,13 @@ def run_pool(ctx, case):
                     pool.callInThreadWithCallback(mk_cb(k), mk(k, o[1], o[2]))
                 else:
                     pool.callInThread(mk(k, o[1], o[2]))
+            elif o[0] == "startw":
+                if not stopped:
+                    pool.startAWorker()
+                    nstartw[0] += 1
+            elif o[0] == "stopw":
+                if not stopped:
+                    pool.stopAWorker()
             elif o[0] == "adjust":
                 if not stopped:
                     lo, hi = o[1], max(1, o[2])
@@ -473,6 +524,9 @@ def run_pool(ctx, case):
                         ctx.violation("pool-onresult-wrong-outcome", case, f"task {k} raises={raises}: ({ok!r}, {r!r})")
             elif res:
                 ctx.violation("pool-onresult-unrequested", case, f"task {k}")
+        if over:
+            ctx.violation("pool-thread-created-at-limit", case,
+                          f"a worker thread was created while the pool already had {over[0][0]} workers, max {over[0][1]}")
         if st_["peak"] > max_ever:
             ctx.violation("pool-more-concurrent-tasks-than-max", case,
                           f"{st_['peak']} tasks ran at once, max was never above {max_ever}")
@@ -486,6 +540,12 @@ def run_pool(ctx, case):
         ctx.count("pool: never started")
     if st_["peak"] >= 2:
         ctx.count("pool: >=2 tasks ran concurrently")
+    if nstartw[0]:
+        ctx.count("pool: startAWorker used")
+        if len(pool.threads) >= case["max"] or nstartw[0] >= case["max"]:
+            ctx.count("pool: startAWorker asked for more workers than max allows")
+    if any(o[0] == "stopw" for o in case["ops"]):
+        ctx.count("pool: stopAWorker used")
     if any(o[0] == "adjust" for o in case["ops"]):
         ctx.count("pool: adjustPoolsize used")
     if any(not b for (_, _, b) in spec.values()):
@@ -499,7 +559,7 @@ def run_pool(ctx, case):
 
 _POOL_W = ([["cit", 0, 0]] * 5 + [["cit", 0, 2]] * 3 + [["cit", 1, 0]] * 3 + [["cit", 1, 1]]
            + [["cb", 0, 0]] * 5 + [["cb", 0, 2]] * 3 + [["cb", 0, 3]] + [["cb", 1, 0]] * 3 + [["cb", 1, 2]] * 2
-           + [["start"]] * 3 + [["stop"]])
+           + [["start"]] * 3 + [["stop"]] + [["startw"]] * 10 + [["stopw"]] * 3)
 
 
 def _pool_histories():
@@ -509,17 +569,20 @@ def _pool_histories():
         lo = min(lo, hi)
         ops = [["start"]] if early else []
         for x in xs:
-            k = x % 36
+            k = x % 52
             if k < len(_POOL_W):
                 ops.append(list(_POOL_W[k]))
             else:
-                a, b = (x // 36) % 4, 1 + (x // 144) % 6
+                a, b = (x // 52) % 4, 1 + (x // 208) % 6
                 ops.append(["adjust", min(a, b), b])
         if not early:
             # everything submitted to a pool that is started only afterwards
             ops = [o for o in ops if o[0] not in ("start", "stop")] + [["start"]]
         return dict(layer="pool", min=lo, max=hi, ops=ops)
-    return st.tuples(st.integers(0, 19), st.integers(0, 3), st.lists(st.integers(0, 36 * 24 - 1), max_size=40)).map(dec)
+    big = st.integers(0, 52 * 24 - 1)
+    ops = st.one_of(st.lists(big, max_size=10), st.lists(big, min_size=8, max_size=25),
+                    st.lists(big, min_size=20, max_size=40))
+    return st.tuples(st.integers(0, 19), st.integers(0, 3), ops).map(dec)
 
 
 # ==========================================================================
